@@ -72,6 +72,8 @@ The real reader (`octave_mcp.core.parser.parse` on /repo) at the excluded points
   node BETWEEN two children emits `X::1 / // mid / Y::2` and reads back as `Y.lead = ['mid']` (the parser itself only creates
   `Comment` nodes at the end of a block).
 No comment is dropped or re-attached on any token list of the model: that is the theorem.
+`Props/C02orphans.lean` extends the content model by the orphan comments (`Comment` children at the end of a block), so that it
+covers every comment the parser can produce on such documents.
 -/
 import Octave.Lemmas.CommentParse
 import Octave.Props.C02flat
@@ -249,6 +251,24 @@ example (p q : CPos) (key : Str) (c : Str) :
     scanOuter 5 [nlTok p, indTok 3 q, cmtTok c 0 0, nlTok q, keyTok key p] 0 = true
     ∧ preOK 5 [nlTok p, indTok 3 q, cmtTok c 0 0, nlTok q, keyTok key p] = false := by
   simp [scanOuter, preOK, indTok, BlockParse.indentVal, keyTok, nlTok, cmtTok]
+
+/-- the block-level theorem instantiated: a commented block with a commented child carrying a trailing comment, followed by
+`===END===`; state and positions symbolic (12 tokens). -/
+example (pos : Nat → CPos) (f : Frame) (a b t : Str) (st : PState) (k : List Token) (h1 : (pos 1).c1 = 1)
+    (hr : st.rest = (CNode.block "B".toList [ .line "X".toList .null [b] (some t) ] [a]).core pos 0 1 ++ f.endTok :: k) :
+    (parseSection 12 [a] st).map Prod.fst
+      = .ok (some (.block "B".toList [ .assign "X".toList .null (pos 3).l (pos 3).c1 [b] (some t) ] (pos 1).l (pos 1).c1 [a] none)) := by
+  rw [C02_cblock_read pos _ _ _ 0 1 st (f.endTok :: k) 12 hr (by simp [stopsL, Frame.endTok])
+    (by simp [CNode.colsOk, colsOkList, h1]) (by simp [CNode.core, toksList, leadToks, indToks, trailToks, CNode.lead])]
+  rfl
+
+/-- the orphan theorem instantiated: two comment lines at indentation 2 and then `===END===`, in the child loop of a block whose
+children are indented by 2. -/
+example (pos : Nat → CPos) (f : Frame) (o1 o2 : Str) (st : PState) (k : List Token)
+    (hr : st.rest = leadToks pos 1 [o1, o2] 5 ++ f.endTok :: k) :
+    ∃ p' : Option Token, blockLoop 7 2 0 [] [] [] st
+      = .ok ([.comment o1, .comment o2], { st with rest := f.endTok :: k, prev := p', pos := st.pos + 6 }) :=
+  C02_comment_orphans pos 0 (f.endTok :: k) (by simp [stopsL, Frame.endTok]) 0 [] [o1, o2] 5 [] st hr
 
 /-- the example: leading comments at depth 0, 1 (one and two lines) and 2, a trailing comment, an empty block with a leading
 comment as last child, two document-trailing comments. -/
